@@ -18,6 +18,9 @@ def hash_apply(it, st, algo, vals):
     else:
         out = uf_bytes(it, 'UF_' + algo, vals, outbits)
         res = [z3.Extract(outbits - 1 - 8 * i, outbits - 8 - 8 * i, out) for i in range(outbits // 8)]
+    if not it.ctx.hash_injective:
+        it.ctx.assumptions.add(f'{algo} is an uninterpreted function of its input bytes (functional consistency only)')
+        return res
     # collision freedom against every earlier application on this path
     key = ('HASHAPPS', algo)
     apps = st.heap.get(key, ())
